@@ -17,6 +17,10 @@ type InMemory struct {
 	namespaces []Cursor
 	attributes []Cursor
 	nodes      []Cursor
+	// noDefaultNamespace is set when the element un-declares the default
+	// namespace (xmlns=""): it then has no namespace node for the empty prefix
+	// and does not inherit one.
+	noDefaultNamespace bool
 }
 
 func initElement() InMemory {
@@ -101,6 +105,10 @@ func inheritNamespaces(cursor *InMemory, pos int) int {
 	for _, i := range cursor.parent.namespaces {
 		ns := i.(*InMemory).node.(node.Namespace)
 
+		if ns.Prefix() == "" && cursor.noDefaultNamespace {
+			continue
+		}
+
 		if findNamespace(cursor, ns.Prefix()) < 0 {
 			pos++
 			cursor.namespaces = append(cursor.namespaces, createNonElement(ns, cursor, pos))
@@ -121,6 +129,11 @@ func findNamespace(cursor *InMemory, prefix string) int {
 }
 
 func addNamespace(ns node.Namespace, cursor *InMemory, pos int) int {
+	if ns.Prefix() == "" && ns.NamespaceValue() == "" {
+		cursor.noDefaultNamespace = true
+		return pos
+	}
+
 	toReplace := findNamespace(cursor, ns.Prefix())
 
 	if toReplace < 0 {
